@@ -88,6 +88,7 @@ def structures(tier, seed):
         out.append(d)
     pairs = [(("center", "left"), ("center", "right")), (("center", "right"), ("left", "center")), (("outer", "center"), ("center", "outer")),
              (("center", "inner"), ("center", "left")), (("left", "center"), ("outer", "center")), (("center", "outer"), ("center", "inner"))]
+    out.append({"part": "native-lazy", "sid": "native-lazy[bounded]"})
     for op in ("cumsum", "diff", "interp"):
         for (sx, sy) in (pairs if (tier == "thorough" or op == "cumsum") else pairs[:2]):
             for order in (("X", "Y"), ("Y", "X")):
@@ -95,6 +96,50 @@ def structures(tier, seed):
                     for inp in (True, False):
                         add_multi(op, sx, sy, order, keep, inp)
     return out
+
+
+def run_native_lazy(s):
+    """[bounded] real xarray + dask: name, dims and coordinates of the result do not depend on whether the input is lazy"""
+    import time
+    import warnings
+
+    import numpy as np
+    import xarray as xr
+    import xgcm
+    warnings.simplefilter("ignore")
+    t0 = time.time()
+    n = 6
+    ds = xr.Dataset(coords={"x_c": ("x_c", np.arange(n) + 0.5, {"units": "m"}), "x_l": ("x_l", np.arange(n) * 1.0, {"units": "m"}), "x_o": ("x_o", np.arange(n + 1) * 1.0),
+                            "y_c": np.arange(4), "aux_y": ("y_c", np.arange(4) * 2.0), "area": (("y_c", "x_c"), np.ones((4, n)))})
+    g = xgcm.Grid(ds, coords={"X": {"center": "x_c", "left": "x_l", "outer": "x_o"}, "Y": {"center": "y_c"}}, periodic=False, autoparse_metadata=False)
+    rng = np.random.default_rng(0)
+    da = xr.DataArray(rng.random((4, n)), dims=("y_c", "x_c"), name="temp").assign_coords(x_c=ds.x_c, y_c=ds.y_c, aux_y=ds.aux_y)
+    bad, ncmp = [], 0
+    for op in ("diff", "interp", "min", "max", "cumsum"):
+        for to in ("left", "outer"):
+            for keep in (True, False):
+                kw = dict(to=to, boundary="extend", keep_coords=keep)
+                ref = getattr(g, op)(da, "X", **kw)
+                for chunks in ({"y_c": 2}, {"x_c": 3}, {"y_c": 1, "x_c": 2}):
+                    if op == "cumsum" or to == "outer":
+                        if "x_c" in chunks and op != "cumsum":
+                            continue  # chunked along the axis with an outer position: refused by design (C06)
+                    ncmp += 1
+                    try:
+                        got = getattr(g, op)(da.chunk(chunks), "X", **kw)
+                    except Exception as e:  # noqa
+                        bad.append(f"{op}(to={to}, keep_coords={keep}) on input chunked {chunks} raised {type(e).__name__}: {e}")
+                        continue
+                    if got.name != da.name:
+                        bad.append(f"{op}(to={to}, keep_coords={keep}) on input chunked {chunks}: result is named {got.name!r}, the input {da.name!r}")
+                    elif got.dims != ref.dims or set(got.coords) != set(ref.coords) or any(dict(got[c].attrs) != dict(ref[c].attrs) for c in ref.coords):
+                        bad.append(f"{op}(to={to}, keep_coords={keep}) on input chunked {chunks}: dims / coordinates {got.dims} {sorted(got.coords)} differ from the in-memory result {ref.dims} {sorted(ref.coords)}")
+    rec = {"fn": "grid.Grid.diff/interp/min/max/cumsum[bounded, real dask]", "clause": "name-dims-coordinates-the-same-for-lazy-input", "status": "failed" if bad else "proved", "time": time.time() - t0,
+           "detail": bad[0] if bad else f"{ncmp} lazy calls"}
+    if bad:
+        rec["witness"] = {"part": "native-lazy", "text": bad[0]}
+    return {"sid": s["sid"], "obligations": [rec], "paths": 0, "queries": 0, "solver_time": 0.0, "engine_errors": [], "covers": {"normal-return": 1},
+            "counts": {"bounded_standin_evaluations": ncmp}}
 
 
 def shifts_of(s, layout):
@@ -126,6 +171,8 @@ def expected_coords(s, r):
 
 
 def run_structure(s):
+    if s.get("part") == "native-lazy":
+        return run_native_lazy(s)
     mods = util.xgcm_modules()
     covers = {}
     canary = s.get("canary")
@@ -217,6 +264,8 @@ def replay(ob):
 
     warnings.simplefilter("ignore")
     wit = ob.get("witness") or {}
+    if wit.get("part") == "native-lazy":
+        return {"confirmed": True, "text": "real xarray + dask:\n" + wit.get("text", "")}
     s = dict(wit["structure"])
     s["axes"] = {a: tuple(v) for a, v in s["axes"].items()}
     multi = bool(s.get("shifts"))
